@@ -392,6 +392,17 @@ func formatInto(sb *strings.Builder, format string, args []string) (int, error) 
 					farg = arg
 				}
 				if farg != nil {
+					if c == 's' {
+						// The 0 flag only applies to numbers;
+						// strings are always padded with blanks.
+						width := 1 // after '%' and any other flag
+						if len(fmts) > 1 && strings.IndexByte("+- ", fmts[1]) >= 0 {
+							width = 2
+						}
+						for width < len(fmts) && fmts[width] == '0' {
+							fmts = slices.Delete(fmts, width, width+1)
+						}
+					}
 					fmts = append(fmts, c)
 					fmt.Fprintf(sb, string(fmts), farg)
 				}
